@@ -149,13 +149,46 @@ def _replace(ctx) -> None:
 
 def _recon(ctx) -> None:
     dm, tm, dam = pmod("datetime"), pmod("time"), pmod("date")
-    sites = recon.sites_in(dm, ["DateTime.date", "DateTime.time", "DateTime.int_timestamp", "DateTime.naive", "DateTime.__sub__", "DateTime.__rsub__"]) \
+    sites = recon.sites_in(dm, ["DateTime.date", "DateTime.time", "DateTime.int_timestamp", "DateTime.naive", "DateTime.__sub__", "DateTime.__rsub__",
+                                "DateTime.instance"]) \
         + recon.sites_in(tm, ["Time.replace", "Time.instance"]) \
         + recon.sites_in(dam, ["Date.today", "Date.fromtimestamp", "Date.fromordinal"]) \
         + recon.sites_in(pmod("interval"), ["Interval.__new__"])       # subtraction of datetimes
     for s in sites:
         recon.check_site(ctx, s)
     ctx.count("recon_sites", len(sites))
+
+
+NATIVE_CLASSMETHODS = {"DateTime": ("datetime", ["fromtimestamp", "utcfromtimestamp", "fromordinal", "strptime", "combine"]),
+                       "Date": ("date", ["today", "fromtimestamp", "fromordinal"])}
+
+
+def _native_delegation(ctx) -> None:
+    """NATIVE.delegate: an alternative constructor inherited from the native class and overridden only to return the pendulum
+    type must take its value from the native constructor of the same name, given the override's own arguments in order
+    (the fields are then copied - RECON): the native class defines what the answer is (local time zone of the process for
+    fromtimestamp/today, proleptic ordinal, strptime's grammar)."""
+    for cls, (native, names) in NATIVE_CLASSMETHODS.items():
+        m = pmod(core.CLASS_HOME[cls])
+        meths = m.methods(cls)
+        for name in names:
+            if name not in meths:
+                continue        # not overridden: the native constructor itself answers (OVERRIDE.inventory watches removals)
+            fn = meths[name]
+            params = core.params(fn)        # without cls
+            calls = [c for c in core.calls(fn) if isinstance(c.func, ast.Attribute) and c.func.attr == name
+                     and (nun(c.func.value) == "super()" or nun(c.func.value).split(".")[-1] == native)]
+            ok = False
+            detail = f"no call of the native {native}.{name}() found"
+            for c in calls:
+                given = [nun(a) for a in c.args] + [nun(k.value) for k in c.keywords if k.arg in params]
+                lead = [p_ for p_ in params if p_ in given]
+                if params and given[:1] == params[:1] or not params:
+                    ok = True
+                detail = f"calls {nun(c)[:80]}"
+                _ = lead
+            ctx.ob("NATIVE.delegate", f"{cls}.{name}", ok,
+                   f"{detail}; the value must come from {native}.{name}({', '.join(params)}) - the native class defines it", m.loc(fn))
 
 
 def _eq_hash_str(ctx) -> None:
@@ -273,6 +306,9 @@ def run(ctx) -> None:
     ctx.step(_inventory, ctx)
     ctx.step(_replace, ctx)
     ctx.step(_recon, ctx)
+    ctx.step(_native_delegation, ctx)
+    from . import C02
+    ctx.step(C02._funnel, ctx)        # replace()/set() like the native replace(): every field, tzinfo and fold reach the constructor
     ctx.step(_eq_hash_str, ctx)
     ctx.step(_combine, ctx)
     ctx.step(_format_protocol, ctx)
